@@ -261,6 +261,16 @@ def check_C12(ctx):
                              "objects are 60-150 logical bytes so that every byte offset of the stored form is enumerated"] + E2_ASSUME[:2])
 
 
+def check_C15(ctx):
+    th = ctx.thorough()
+    g = ctx.bin(GRID)
+    jobs = [Job(g, "TestC15", name="C15:instances/" + mode, timeout=1200, env={"VERIF_PARAM_MODE": mode, "GOMAXPROCS": "4"}) for mode in ("zstd", "uncompressed")]
+    jobs += e2cache_jobs(ctx, "C15", 4 if th else 3, 1500 if th else 100, 8 if th else 2, proxies=("0",))
+    return dict(level="model_checking", jobs=jobs,
+                rule="explicit-state BFS over operation sequences on a real disk cache in which the CAS, AC and RAW key spaces collide on ONE hash (uploads good and failing, overwrites, evictions, lookups, zstd reads), compared with three independent reference maps on every transition; plus the full product of 12 instance names (empty, nested, containing ac/cas/blobs/uploads segments, unicode, spaces, case, trailing slash) x store via gRPC or HTTP x read via gRPC or HTTP under every instance name x mangling on/off x HTTP validation on/off",
+                assumptions=E2_ASSUME + ["instance names without leading/trailing slash (REAPI-conformant); an HTTP path with an empty segment is redirected by net/http before it reaches the handler"])
+
+
 def check_C16(ctx):
     g = ctx.bin(GRID)
     shards = 4
@@ -346,7 +356,7 @@ def check_C13(ctx):
                              "a method unknown to the harness's read-only list is treated as mutating"])
 
 
-CHECKS = {"C01": check_C01, "C02": check_C02, "C08": check_C08, "C09": check_C09, "C06": check_C06, "C10": check_C10, "C11": check_C11, "C12": check_C12, "C13": check_C13, "C16": check_C16, "C17": check_C17, "C18": check_C18, "C03": check_C03, "C04": check_C04, "C05": check_C05, "C07": check_C07}
+CHECKS = {"C01": check_C01, "C02": check_C02, "C08": check_C08, "C09": check_C09, "C06": check_C06, "C10": check_C10, "C11": check_C11, "C12": check_C12, "C13": check_C13, "C15": check_C15, "C16": check_C16, "C17": check_C17, "C18": check_C18, "C03": check_C03, "C04": check_C04, "C05": check_C05, "C07": check_C07}
 
 # per-property manifest metadata
 META = {
@@ -374,6 +384,12 @@ META = {
         note="Small-scope: <=3 entries per population, three size classes; atimes set explicitly.",
         technique="exhaustive enumeration of a bounded grammar of on-disk states x configurations, real start-up code, reference simulation oracle",
         design_ref="DESIGN.md 3 (C09)"),
+    "C15": dict(
+        category="model_checking", engine="E2 seqx + E4 grid",
+        text="Explicit-state BFS over all operation sequences (depth 3 quick / 4 thorough) on a real disk cache whose alphabet makes the CAS, the validated AC and the raw AC collide on a single hash; every transition is compared with per-key-space reference maps (a write, overwrite, failed write or eviction in one space never changes what another space returns; zstd reads are only served from the CAS). Server level: every pairing of 12 instance names for write and read, through both front ends in both directions, with mangling on/off and HTTP validation on/off: with mangling a value is returned exactly for its own instance name (HTTP prefix == gRPC instance_name), without mangling for all; raw and validated caches independent; CAS ignores instance prefixes.",
+        note="Bounded depth/alphabet for the BFS; the instance-name alphabet is finite but chosen adversarially from the URL grammar.",
+        technique="explicit-state BFS with colliding keys + exhaustive instance-name x front-end product",
+        design_ref="DESIGN.md 3 (C15)"),
     "C16": dict(
         category="exploration", engine="E4 grid",
         text="Bounded-exhaustive enumeration of ByteStream.Write message sequences against the real handler: every composition of a small payload into messages (including empty and one-byte messages), finish_write placement, resource name omitted/repeated/changed on later messages, first write_offset 0/1, declared size n/n-1/n+1, blob present or absent beforehand, blobs/ and compressed-blobs/zstd, instance-name prefixes, trailing metadata and unparsable names. Oracle from the statement: committed_size == payload bytes sent (or size / -1 on the early return for an existing blob), presence afterwards, malformed streams fail and store nothing, QueryWriteStatus complete with the full size exactly when present.",
